@@ -702,7 +702,8 @@ def step_over_plan(observed):
         if cls == "multi-chain" and detail == "after-module-level-loop":
             combos.append(MODULE_LOOP_MARK)     # projects with several chains and a module-level loop are skipped
         elif cls == "multi-chain":
-            combos.append(MULTI_MARK + detail)  # projects with several chains, one of them with these link kinds, are skipped
+            if detail != "*":
+                combos.append(MULTI_MARK + detail)  # projects with several chains, one of them with these link kinds, are skipped
         elif cls == "shared-names":
             uniq = True
         elif cls in fam_names:
